@@ -513,7 +513,7 @@ def run(prop, tier, seed, replay, cfg):
         ["Lean compiler/runtime for the executable model (pkmodel)",
          "correspondence harness /verif/harness/lib/importh + tools/checks/importcheck.py (differential, generated traffic)",
          "gopacket (layers, pcapgo, reassembly, libpcap reader) — third party; the theorems assume the record "
-         "ReasmSpec/ReasmLaws, validated by the differential run against the Lean reference reassembler"]))
+         "ReasmRecovers/ReasmLaws, validated by the differential run against the Lean reference reassembler"]))
     rep.assumptions = cfg["assumptions"]
 
     binpath, blog = pk.go_build(prop.lower())
